@@ -49,6 +49,19 @@ func propHolds(kind string, lits [][]byte, m []byte) bool {
 	return false
 }
 
+// c17BaseKind maps a case kind to the guarantee the verified checker decides for it.
+func c17BaseKind(kind string) string {
+	switch kind {
+	case "inner-reverse":
+		return "inner"
+	case "prefix-lcp":
+		return "prefix"
+	case "suffix-lcs":
+		return "suffix"
+	}
+	return kind
+}
+
 func checkC17(r *Report, known []Finding) {
 	r.Rule = "pattern from corpus/mutation/grammar x extractor limits (MaxLiterals 1,2,8,64; MaxLiteralLen 1,2,4,64; MaxClassSize 1,3,10): the sequences returned by ExtractPrefixes/ExtractSuffixes/" +
 		"ExtractInner(ForReverseSearch) are checked by the verified Lean checker (Cx.LitCheck.checkPrefix/Suffix/Inner: product of the dumped NFA with the literal automaton; `ok` is a proof for ALL " +
@@ -65,6 +78,7 @@ func checkC17(r *Report, known []Finding) {
 		partial           bool
 	}
 	var cases []lcase
+	var seqOpsSeen []*literal.Seq // sequences the real extractor produced: inputs of the set-reduction tie
 	cfgs := []literal.ExtractorConfig{literal.DefaultConfig()}
 	for _, ml := range []int{1, 2, 8} {
 		for _, mll := range []int{1, 4} {
@@ -154,11 +168,25 @@ func checkC17(r *Report, known []Finding) {
 					return
 				}
 				r.Dist[kind+":non-empty"]++
-				k := kind
-				if k == "inner-reverse" {
-					k = "inner"
-				}
+				k := c17BaseKind(kind)
 				cases = append(cases, lcase{p: p, kind: kind, cfg: cfgName, req: fmt.Sprintf("litcheck %s %s %s", k, dump, hx), lits: lits, partial: s.IsPartialCoverage()})
+				// set reductions keep the guarantee: the longest common prefix / suffix of the sequence (what the strategies search for:
+				// meta/reverse_suffix.go, reverse_suffix_multiline.go, strategy.go) is itself a necessary prefix / suffix of every match
+				if kind == "prefix" || kind == "suffix" {
+					var red []byte
+					rk := "prefix-lcp"
+					if kind == "prefix" {
+						red = s.LongestCommonPrefix()
+					} else {
+						red = s.LongestCommonSuffix()
+						rk = "suffix-lcs"
+					}
+					seqOpsSeen = append(seqOpsSeen, s.Clone())
+					if len(red) > 0 {
+						r.Case(p+"\x00"+cfgName+"\x00"+rk, true)
+						cases = append(cases, lcase{p: p, kind: rk, cfg: cfgName, req: fmt.Sprintf("litcheck %s %s %s", k, dump, hex.EncodeToString(red)), lits: [][]byte{red}, partial: s.IsPartialCoverage()})
+					}
+				}
 				// complete literals
 				for j := 0; j < s.Len(); j++ {
 					l := s.Get(j)
@@ -216,10 +244,7 @@ func checkC17(r *Report, known []Finding) {
 		}
 		w, _ := hex.DecodeString(strings.TrimPrefix(strings.TrimPrefix(a, "fail:"), "-"))
 		full, err := regexp.Compile(`^(?:` + c.p + `)$`)
-		k := c.kind
-		if k == "inner-reverse" {
-			k = "inner"
-		}
+		k := c17BaseKind(c.kind)
 		if err != nil || !full.Match(w) || propHolds(k, c.lits, w) {
 			incon++ // witness only feasible when look-around is ignored: neither proved nor refuted for this instance
 			continue
@@ -238,7 +263,7 @@ func checkC17(r *Report, known []Finding) {
 			continue
 		}
 		r.Violate(fmt.Sprintf("%s literals of %q (%s) are not necessary: %q matches the pattern but %s none of %q", c.kind, c.p, c.cfg, w,
-			map[string]string{"prefix": "starts with", "suffix": "ends with", "inner": "contains", "inner-reverse": "contains"}[c.kind], c.lits),
+			map[string]string{"prefix": "starts with", "suffix": "ends with", "inner": "contains"}[k], c.lits),
 			map[string]any{"pattern": c.p, "kind": c.kind, "config": c.cfg, "witness_hex": hexOf(w), "literals": fmt.Sprintf("%q", c.lits)}, false)
 	}
 	r.Extra["inconclusive_look_crossing_or_fuel"] = incon
@@ -248,5 +273,6 @@ func checkC17(r *Report, known []Finding) {
 		c = cases[len(cases)/2]
 		r.Sample(map[string]any{"pattern": c.p, "kind": c.kind, "literals": fmt.Sprintf("%q", c.lits), "checker": ans[len(cases)/2]})
 	}
+	c17SeqOpsTie(r, seqOpsSeen)
 	replayKnownExamples(r, known, "C17")
 }
